@@ -85,17 +85,23 @@ theorem slice_covers (ap nap : AP) (size ndStart ndEnd : Int) (sls : List (Optio
   obtain ⟨_, hs, hd, hlt⟩ := hcov
   exact ShapeAlg.apS_cov ap nap size ndStart ndEnd sls hs hd hlt hstep h
 
-/-- Lazy transposition preserves the invariant (rank ≤ 5 through `unsafePermute_gather`). -/
+/-- Lazy transposition preserves the invariant, for every pattern — two-dimensional vectors (whose long axis keeps
+    its stride) included (rank ≤ 5 through `unsafePermute_gather`). -/
 theorem T_covers (ap tap : AP) (len : Int) (axes ax' : List Int) (hr : ap.shape.length ≤ 5)
     (hcov : Covers ap len) (hp : isPerm axes ap.shape.length = true)
-    (h : ap.T axes = .ok (.ok tap ax')) (hnv : isVector ap.shape = false) :
+    (h : ap.T axes = .ok (.ok tap ax')) :
     Covers tap len := by
   obtain ⟨hl, hs, hd, hlt⟩ := hcov
-  exact ShapeAlg.apT_cov ap tap len axes ax' hr hl hs hd hlt hp h hnv
+  exact ShapeAlg.apT_cov ap tap len axes ax' hr hl hs hd hlt hp h
 
 -- non-vacuity
 example : Covers { shape := [2, 3], strides := [3, 1] } 6 := by
   refine ⟨rfl, ?_, ?_, by decide⟩ <;> intro x hx <;> simp at hx <;> omega
+-- a column of a 3×3 matrix as a (3, 1) vector with strides (3, 1) over a window of 7 cells, and its transpose
+example : Covers { shape := [3, 1], strides := [3, 1] } 7 := by
+  refine ⟨rfl, ?_, ?_, by decide⟩ <;> intro x hx <;> simp at hx <;> omega
+example : (match ({ shape := [3, 1], strides := [3, 1] } : AP).T [] with
+  | .ok (.ok tap _) => tap.shape == [1, 3] && tap.strides == [1, 3] | _ => false) = true := by decide
 
 /-! ## the source of the shape calculator
 
